@@ -95,6 +95,8 @@ class Program:
                 continue
             if sigs is None:
                 sigs = alpha.signatures(mm.tree for mm in self.modules.values())
+                from . import derefactor as _dr
+                _dr.PURE_NAMES = alpha.pure_getters(mm.tree for mm in self.modules.values())
             import copy as _copy
             backup = _copy.deepcopy(m.tree)
             try:
